@@ -88,13 +88,20 @@ func (c *Ctx) checkCtorOptions() {
 				n++
 				used := false
 				for _, e := range t.Events {
-					if e.Kind != EvCall {
-						continue
-					}
-					for _, a := range e.Args {
-						if a.mentions("$" + opts.Name()) {
+					// handed to another function, or applied here (a loop calling each option)
+					if e.Kind == EvCall {
+						for _, a := range e.Args {
+							if a.mentions("$" + opts.Name()) {
+								used = true
+							}
+						}
+						if e.Val != nil && e.Val.mentions("$"+opts.Name()) {
 							used = true
 						}
+					}
+					// the loop over the options was evaluated (possibly zero iterations on this path)
+					if e.Kind == EvBranch && e.Cond.mentions("$"+opts.Name()) {
+						used = true
 					}
 				}
 				if !used && ok {
